@@ -1,3 +1,4 @@
+import Agd.Tie.TrC11
 import Agd.Model.HashPrefix
 import Agd.Lemmas.HashPrefix
 import Agd.Tie.C11
@@ -736,3 +737,10 @@ example : (newStorage (fun x => x) [97, 10, 35, 98, 10]).2 = some 1 := by decide
 #print axioms inconsistent_flag_counterexample
 
 end Agd.HashPrefix
+#print axioms Agd.Tie.TrC11.translation_complete
+#print axioms Agd.Tie.TrC11.malformed_prefix_refused
+#print axioms Agd.Tie.TrC11.unmatched_forwarded
+#print axioms Agd.Tie.TrC11.matched_answered_with_hashes
+#print axioms Agd.Tie.TrC11.txt_only
+#print axioms Agd.Tie.TrC11.filterable_iff
+#print axioms Agd.Tie.TrC11.resp_for_family
